@@ -110,15 +110,39 @@ class E2Session(SessionBase):
                                     signature=sig)
             self.discarded = 'oms-list-cannot-be-built'
             return
+        self._adopt_fresh_oms_list('designed network')
+
+    def _adopt_fresh_oms_list(self, when):
+        self.model, self.services, self.own_extent = [], [], []
         for i, oms in enumerate(self.oms_list):
             bm = oms.spectrum_bitmap
             self.model.append({n: {FREE: 'F', UNUS: 'U', OCC: 'P'}[b] for n, b in zip(bm.freq_index, bm.bitmap)})
             self.services.append([])
             self.own_extent.append((bm.n_min, bm.n_max))
         if 'C15' in self.props:
-            self._check_structure('designed network')
+            self._check_structure(when)
             self._check_partition()
             self._check_usable_bands()
+
+    def do_rebuild(self):
+        """the OMS list is built again on the same network object (planning() does this on every call): it must work on
+        a network that already went through a build and carried assignments, and give the same fresh partition"""
+        if self.discarded or self.world['kind'] != 'net':
+            return {'kind': 'skip'}
+        first = [(list(o.el_id_list), list(o.spectrum_bitmap.freq_index)) for o in self.oms_list]
+        try:
+            self.oms_list = sa.build_oms_list(self.network, self.equipment)
+        except Exception as e:      # noqa
+            if 'C15' in self.props:
+                raise Violation('C15', 'oms-list-cannot-be-built-again-on-the-same-network', repr(e)[:300])
+            self.discarded = 'oms-list-cannot-be-rebuilt'
+            return {'kind': 'rebuild-failed'}
+        if 'C15' in self.props and first != [(list(o.el_id_list), list(o.spectrum_bitmap.freq_index))
+                                             for o in self.oms_list]:
+            raise Violation('C15', 'rebuilt-oms-partition-differs', 'second build_oms_list on the same network differs')
+        self._adopt_fresh_oms_list('rebuilt on the same network')
+        self.st.probes['oms_list_rebuilt_on_used_network'] += 1
+        return {'kind': 'rebuilt'}
 
     def _check_partition(self):
         from gnpy.core.elements import Roadm, Transceiver
@@ -638,6 +662,11 @@ def make_machine(prop, tier, cfg):
             if self.swarm['bad_policy'] and pol == 4:
                 policy = '2partition'
             self.sess.apply('assign', {'reqs': [self._resolve(r) for r in reqs], 'policy': policy})
+
+        @precondition(lambda self: self.sess is not None and self.sess.world['kind'] == 'net')
+        @rule()
+        def rebuild(self):
+            self.sess.apply('rebuild', {})
 
         if prop == 'C15':
             @rule(dl=st.integers(-10, 10), dh=st.integers(-10, 10), us=st.lists(
